@@ -48,6 +48,14 @@ def run(res, args):
         rep, info = O.replay_color_gadget(d)
         return rep, info, {'site': 'Color -> Gadget', 'probe': info['failed_probes'][0]['colour'] if info['failed_probes'] else None}
     O.merge(res, O.c19_color_gadget(fns, consts), res.coverage, replay_gad, 'gadget')
+    from . import c19_palette
+
+    def replay_palm(ob, d):
+        rep, info = c19_palette.replay(d)
+        fp = info.get('failed_probes') or [{}]
+        return rep, info, {'site': 'merge_default_roles', 'probe': f"{fp[0].get('group')}/{fp[0].get('role')}"}
+    for T in (1, 2):
+        O.merge(res, c19_palette.obligations(fns, consts, T), res.coverage, replay_palm, 'palette groups')
     res.assumptions += [
         'Outside the claim: HashMap lookup + to_ascii_lowercase of the keyword path and unknown-name rejection as executed code (Kani ICE on hashbrown; decided only structurally on the MIR), alpha=255 for opaque colours (impl From<Color> for Gadget, HashMap::from)',
         "Qt's rule for the four listed hex forms is the independently written qt_hex() oracle in harness/color.rs",
